@@ -1,5 +1,6 @@
 #!/bin/bash
 # run_seeded.sh [names…]: applies each archived seeded change to /repo, runs the quick check of the property it breaks,
+# (names ending in -h are harmless rewrites: the check must stay quiet)
 # records the verdict in /verif/seeded/RESULTS.tsv, and restores /repo (git checkout -- .).
 cd /verif
 names="$@"; [ -z "$names" ] && names=$(ls seeded | grep -E '^C[0-9]+-')
@@ -10,8 +11,10 @@ for n in $names; do
   git -C /repo checkout -- .
   v=$(echo "$out" | grep -E "^VIOLATION" | head -1)
   kind="MISSED"
+  case $n in *-h) kind="quiet(ok)";; esac
   if [ $rc -ne 0 ] && [ -n "$v" ]; then
     if echo "$v" | grep -q "no-failing-input-found"; then kind="detected(no-failing-input-found)"; else kind="detected(with failing input)"; fi
+    case $n in *-h) kind="ALARM-ON-HARMLESS:$kind";; esac
   fi
   w=$(echo "$out" | grep -E "^(WITNESS|BROKEN)" | head -1 | cut -c1-220 | tr '\t' ' ')
   echo -e "$n\t$pid\t$kind\t$w"
